@@ -547,6 +547,11 @@ def merge (s o : Sketch) (byMove : Bool) (coins : List Bool) : M (Sketch × List
   let s ← resetSortedView s
   pure (s, coins)
 
+/-- `merge` as run in a history: `n_` is a `uint64_t`; a merge whose total weight would not fit is outside the model
+    (it ends the story like an exception; no history the harness can afford comes near it) -/
+def mergeChecked (s o : Sketch) (byMove : Bool) (coins : List Bool) : M (Sketch × List Bool) :=
+  if o.numLevels ≥ 2 ∧ s.n + o.n ≥ 2 ^ 64 then throwExc "n_ would overflow uint64_t" else merge s o byMove coins
+
 /-! ### queries and serialization -/
 
 /-- `get_rank`/`get_quantile`: `setup_sorted_view()` (sorts level zero, reads every retained item) -/
